@@ -162,22 +162,24 @@ Section Conv.
           else Err Reject))
       end.
 
-    (** groom: rename the first child carrying the wire tag, then drop every child whose tag contains '.' *)
+    (** ungroom renames the first child carrying the python tag back to the wire tag (to_etree emits it once) *)
     Fixpoint rename_first (src dst : string) (ch : list etree) : list etree :=
       match ch with
       | [] => []
       | Node t x c :: r => if String.eqb t src then Node dst x c :: r else Node t x c :: rename_first src dst r
       end.
     (** accumulator of functools.reduce: args and kwargs (both reversed), previous index + 1, previous is list member,
-        warnings (reversed); plus [renamed]: groom's rename of the FIRST child carrying the wire tag has been done.
+        warnings (reversed); plus [renamed]: some child carrying the wire tag has been met.
         groom is applied on the fly (so that the recursion stays structural on the children): a child whose tag contains
-        '.' is skipped, the first child tagged with the wire name is read under the python name. *)
+        '.' is skipped, EVERY child tagged with the wire name is read under the python name (groom renames all of them, as its
+        docstring says, since the repair "fix: groom renames every YIELD / FROM child": a second one is then a repeated
+        non-repeatable child and the document is rejected). *)
     Definition acc := (list kwval * list (string * kwval) * nat * bool * list string * bool)%type.
     Definition acc0 : acc := ([], [], 0%nat, false, [], false).
 
     Definition groomed_tag (c : cinfo) (renamed : bool) (t : string) : string * bool :=
       match ci_rename c with
-      | Some (wire, py) => if (negb renamed && String.eqb t wire)%bool then (py, true) else (t, renamed)
+      | Some (wire, py) => if String.eqb t wire then (py, true) else (t, renamed)
       | None => (t, renamed)
       end.
 
